@@ -99,6 +99,8 @@ AdmissionExc == {"NoRemoteEntityCfgFound", "InvalidPduDirection", "InvalidSource
 \* the destination sandbox before event i: the snapshot of the previous destination-side event (or the initial one)
 FsBefore(T, i) == LET prev == { j \in 1..(i - 1) : T.ev[j].side = "D" } IN
                   IF prev = {} THEN T.fs0 ELSE T.ev[LastIdx(prev)].fs
+\* the public observation without the queue counters (retrieving PDUs after the call changes them)
+NoQ(pub) == [f \in DOMAIN pub \ {"nready", "qlen"} |-> pub[f]]
 C10(T) ==
   IF ~Has(T, "C10") THEN {} ELSE
   { V("C10", "internal-error-leaked", i, Kf(T), T.ev[i].exc, T.ev[i].excw) :
@@ -109,11 +111,13 @@ C10(T) ==
                                /\ ~(/\ T.ev[i].exc \in {"FileNotFoundError", "PermissionError", "IsADirectoryError"}
                                     /\ \E j \in 1..i : "wrej" \in DOMAIN T.ev[j] /\ T.ev[j].wrej) } }
   \cup { V("C10", "unretrieved-pdus-error-with-empty-queue", i, Kf(T), T.ev[i].exc, T.ev[i].excw) :
-      i \in { i \in Calls(T) : T.ev[i].exc = "UnretrievedPdusToBeSent" /\ T.ev[i].pre.nready = 0 } }
+      i \in { i \in Calls(T) : /\ T.ev[i].exc = "UnretrievedPdusToBeSent"
+                               \* the sender publishes a counter (nready) next to the queue itself (qlen): the queue decides
+                               /\ (IF T.ev[i].side = "S" THEN T.ev[i].pre.qlen = 0 ELSE T.ev[i].pre.nready = 0) } }
   \cup { V("C10", "rejected-pdu-changed-state", i, Kf(T), T.ev[i].exc, T.ev[i].excw) :
       i \in { i \in Calls(T) : LET e == T.ev[i] IN
                 /\ e.call = "fsm" /\ e.arg.t # "none" /\ e.exc \in AdmissionExc
-                /\ \/ [e.post EXCEPT !.nready = e.pre.nready] # e.pre
+                /\ \/ NoQ(e.post) # NoQ(e.pre)
                    \/ e.pre.nready # e.post.nready + Len(e.out)
                    \/ (e.side = "D" /\ ToSet(e.fs) # ToSet(FsBefore(T, i))) } }
 
@@ -267,7 +271,7 @@ C19(T) ==
   LET puts == { i \in OfSide(T, "S") : T.ev[i].call = "put" }
       trans == SelectSeq(IndsOf(T, "S"), LAMBDA x : x.k = "transaction") IN
   { V("C19", "busy-handler-accepted-or-disturbed-by-put-request", i, Kf(T), "", "") :
-      i \in { i \in puts : T.ev[i].pre.state = "BUSY" /\ (T.ev[i].ret # "false" \/ [T.ev[i].post EXCEPT !.nready = T.ev[i].pre.nready] # T.ev[i].pre
+      i \in { i \in puts : T.ev[i].pre.state = "BUSY" /\ (T.ev[i].ret # "false" \/ NoQ(T.ev[i].post) # NoQ(T.ev[i].pre)
                                                              \/ T.ev[i].pre.nready # T.ev[i].post.nready + Len(T.ev[i].out)
                                                              \/ T.ev[i].ind # <<>> \/ T.ev[i].exc # "none") } }
   \cup { V("C19", "missing-source-file-not-refused", i, Kf(T), T.ev[i].exc, "") :
